@@ -1,5 +1,5 @@
 CONSTANTS
-  Params = {"DEF", "K1", "K2", "K3"}
+  Params = {"DEF", "K1", "K2", "K3", "K4"}
   DEFAULT = "DEF"
   MaxCmds = 0
   GuardQuerySigs = TRUE
